@@ -15,7 +15,7 @@ import sketchnu.countmin as cmmod
 
 RULE = (
     "Fault enumeration over crash points of save(): for each of the five classes and 2 (quick) / 6 (thorough) seed-derived shapes with random "
-    "histories (files of 0.6-20 kB), EVERY strict prefix length 0..len-1 of the saved file (saved to a fresh path, or over an existing larger sketch file, or over arbitrary longer content) is written to disk under rotating names (part.npz, full.part, full.npz.tmp, full) next to the complete full.npz and loaded (the argument given as path string, pathlib.Path, open binary file or non-seekable stream, in rotation; blocks of 16 consecutive lengths alternately on the main thread and on a second thread; the saved sketch lives in memory or, for half of the files, in shared memory) through the class "
+    "histories (files of 0.6-20 kB), EVERY strict prefix length 0..len-1 of the saved file (saved to a fresh path, or over an existing larger sketch file, or over arbitrary longer content) is written to disk under rotating names (part.npz, full.part, full.npz.tmp, full) next to the complete full.npz, or - every fifth length - written in place over a copy of the file that was loaded completely before (that sketch is still alive) and loaded (the argument given as path string, pathlib.Path, open binary file or non-seekable stream, in rotation; blocks of 16 consecutive lengths alternately on the main thread and on a second thread; the saved sketch lives in memory or, for half of the files, in shared memory) through the class "
     "loader (with shared_memory False, and True for one shape per class) and, for count-min, through countmin.load; the complete file must load "
     "and equal the saved sketch (parameters, tables, bookkeeping, queries). The same enumeration is repeated for one shape per class in an interpreter started with -O (assert statements stripped), and files of 1 MB and more (one per class: 1 MiB linear table, 2^19+3 log16 counters, 1.2 MB log8, 20000x3x16 heavy hitters, p=16) are cut at the last 4096 lengths, the first 300, around every zip member boundary and at 1500 drawn lengths. Oracle: every strict prefix raises an exception (any type); returning any "
     "object is a violation. Non-trivial: a prefix that ends inside a member's data, a later local header or the central directory / end record "
@@ -150,7 +150,11 @@ def _task(arg):
         try:
             cp = sut(loader, full, shm)
             compare(sk, cp, kind, KEYS[:5], "complete file")
-            del cp
+            # a second copy of the file is loaded completely as well and that sketch stays alive: later the same file
+            # (same inode) is rewritten in place and cut short, as an interrupted re-save would leave it
+            again = os.path.join(tmp, "again.npz")
+            shutil.copyfile(full, again)
+            cp2 = sut(loader, again, shm)
         except Violation as v:
             rec.violation(dict(case0, prefix=len(data)), "complete file: " + v.msg, "complete-file")
             return rec
@@ -162,9 +166,17 @@ def _task(arg):
 
         side = cf.ThreadPoolExecutor(1)  # sequential use of the loaders from a thread other than the main one
         for n in range(len(data)):
-            part = names[n % len(names)]
-            with open(part, "wb") as f:
-                f.write(data[:n])
+            inplace = n % 5 == 4
+            if inplace:
+                part = again
+                with open(part, "r+b") as f:
+                    f.seek(0)
+                    f.write(data[:n])
+                    f.truncate(n)
+            else:
+                part = names[n % len(names)]
+                with open(part, "wb") as f:
+                    f.write(data[:n])
             # the argument as a path string, a pathlib.Path, an open (seekable) file, or a non-seekable stream
             form = (n // len(names)) % 4
             fh = None
@@ -187,12 +199,14 @@ def _task(arg):
                     fh.close()
             region = "in_first_header" if n <= first_end else ("in_central_directory" if n >= cd_start else "in_member_data_or_headers")
             cls[region] += 1
-            os.unlink(part)
+            if not inplace:
+                os.unlink(part)
             if obj is not None:
                 rec.violation(dict(case0, prefix=n), f"{kind} {cfg}: a {n}-byte prefix of the {len(data)}-byte file loaded through {via} loader (shared_memory={shm}) and returned {type(obj).__name__} ({region})", "prefix-loaded")
                 del obj
                 break
         side.shutdown()
+        del cp, cp2
         nt = cls["in_member_data_or_headers"] + cls["in_central_directory"]
         rec.bulk(sum(cls.values()), nt, dict(case0, example_prefix=cd_start + 3), {f"prefix_{k}": v for k, v in cls.items()})
         rec.count("files_saved_from_a_shared_memory_sketch" if saved_shared else "files_saved_from_an_in_memory_sketch")
